@@ -1,6 +1,7 @@
 package main
 
 import (
+	"archive/zip"
 	"bytes"
 	"context"
 	"encoding/json"
@@ -13,6 +14,7 @@ import (
 	"net/textproto"
 	"net/url"
 	"strings"
+	"unicode/utf16"
 
 	"github.com/getkin/kin-openapi/openapi3"
 	"github.com/getkin/kin-openapi/openapi3filter"
@@ -41,6 +43,167 @@ type c06Case struct {
 	BodyRequired *bool `json:"bodyRequired"`
 	// PartCT: Content-Type of every part of a multipart body ("" / "none" = no header, "text" = text/plain)
 	PartCT string `json:"partCT"`
+	// round 6b
+	Bare      any     `json:"bare"`      // select: the entry declared without a schema (a media type record) or {none: true}
+	EmptyForm string  `json:"emptyForm"` // select, empty body: nil | nobody (http.NoBody) | reader (empty reader, length 0) | unsized (empty reader, length unknown)
+	DeclPar   *string `json:"declPar"`   // decode: parameter on the declared media type key
+	HdrPar    *string `json:"hdrPar"`    // decode: parameter on the Content-Type header
+	Spell     string  `json:"spell"`     // form: "pct" = every byte outside [A-Za-z0-9] percent-escaped (a space is %20)
+	Boundary  string  `json:"boundary"`  // multipart: default | quoted | short
+	Kind      string  `json:"kind"`      // malformed: which way the text fails to be an encoding
+	TextForm  string  `json:"textForm"`  // json: pretty | escaped; yaml: flow -- another spelling of the same value
+	MtName    string  `json:"mtName"`    // json / yaml: another media type name the library registers the decoder under
+	EncCT     bool    `json:"encCT"`     // multipart: the media type declares encoding.<property>.contentType for every property
+	Entry     string  `json:"entry"`     // "request": ValidateRequest instead of ValidateRequestBody
+}
+
+// c06JSONEscaped renders a tagged value as JSON with every character of every string and key written as a \uXXXX escape.
+func c06JSONEscaped(t any, sb *strings.Builder) {
+	esc := func(x string) {
+		sb.WriteByte('"')
+		for _, r := range x {
+			if r > 0xFFFF {
+				r1, r2 := utf16.EncodeRune(r)
+				fmt.Fprintf(sb, "\\u%04x\\u%04x", r1, r2)
+			} else {
+				fmt.Fprintf(sb, "\\u%04x", r)
+			}
+		}
+		sb.WriteByte('"')
+	}
+	m := t.(map[string]any)
+	switch m["t"] {
+	case "str":
+		esc(csToString(m["cs"]))
+	case "arr":
+		sb.WriteByte('[')
+		for i, it := range asSlice(m["a"]) {
+			if i > 0 {
+				sb.WriteByte(',')
+			}
+			c06JSONEscaped(it, sb)
+		}
+		sb.WriteByte(']')
+	case "obj":
+		sb.WriteByte('{')
+		vs := asSlice(m["v"])
+		for i, k := range asSlice(m["k"]) {
+			if i > 0 {
+				sb.WriteByte(',')
+			}
+			esc(k.(string))
+			sb.WriteByte(':')
+			c06JSONEscaped(vs[i], sb)
+		}
+		sb.WriteByte('}')
+	default:
+		sb.WriteString(taggedToJSONText(t))
+	}
+}
+
+// c06YAML renders a tagged value as block-style YAML (strings that a YAML reader would take for something else are double-quoted).
+func c06YAML(t any, indent string, sb *strings.Builder, top bool) {
+	m := t.(map[string]any)
+	scalar := func(x map[string]any) string {
+		switch x["t"] {
+		case "null":
+			return "null"
+		case "str":
+			str := csToString(x["cs"])
+			plain := str != ""
+			for _, r := range str {
+				if !(r >= 'a' && r <= 'z') {
+					plain = false
+				}
+			}
+			switch str {
+			case "null", "true", "false", "yes", "no", "on", "off", "y", "n":
+				plain = false
+			}
+			if plain {
+				return str
+			}
+			b, _ := json.Marshal(str)
+			return string(b)
+		default:
+			return taggedToJSONText(x)
+		}
+	}
+	switch m["t"] {
+	case "obj":
+		ks, vs := asSlice(m["k"]), asSlice(m["v"])
+		if len(ks) == 0 {
+			sb.WriteString(indent + "{}\n")
+			return
+		}
+		for i, k := range ks {
+			v := vs[i].(map[string]any)
+			switch {
+			case v["t"] == "obj" && len(asSlice(v["k"])) > 0:
+				sb.WriteString(indent + k.(string) + ":\n")
+				c06YAML(v, indent+"  ", sb, false)
+			case v["t"] == "arr" && len(asSlice(v["a"])) > 0:
+				sb.WriteString(indent + k.(string) + ":\n")
+				for _, it := range asSlice(v["a"]) {
+					sb.WriteString(indent + "- " + scalar(it.(map[string]any)) + "\n")
+				}
+			case v["t"] == "obj":
+				sb.WriteString(indent + k.(string) + ": {}\n")
+			case v["t"] == "arr":
+				sb.WriteString(indent + k.(string) + ": []\n")
+			default:
+				sb.WriteString(indent + k.(string) + ": " + scalar(v) + "\n")
+			}
+		}
+	default:
+		sb.WriteString(indent + scalar(m) + "\n")
+	}
+}
+
+// c06PctEscape escapes every byte outside [A-Za-z0-9] as %XX.
+func c06PctEscape(x string) string {
+	var sb strings.Builder
+	for i := 0; i < len(x); i++ {
+		b := x[i]
+		if b >= 'a' && b <= 'z' || b >= 'A' && b <= 'Z' || b >= '0' && b <= '9' {
+			sb.WriteByte(b)
+		} else {
+			fmt.Fprintf(&sb, "%%%02X", b)
+		}
+	}
+	return sb.String()
+}
+
+// c06Malformed: the Content-Type and body text of a "malformed" case.
+func c06Malformed(family, kind string) (ct string, body []byte) {
+	switch family {
+	case "json":
+		ct = "application/json"
+		body = []byte(map[string]string{"truncated": `{"n":1`, "trailing": `{"n":1} x`, "two": `{"n":1}{"n":1}`, "bareword": `abc`,
+			"trailcomma": `{"n":1,}`, "empty_ws": "  \n"}[kind])
+	case "form":
+		ct = "application/x-www-form-urlencoded"
+		body = []byte(map[string]string{"badpct": "n=1&s=%zz", "badpct_end": "n=1&s=a%"}[kind])
+	case "yaml":
+		ct = "application/yaml"
+		body = []byte(map[string]string{"unclosed": "n: 1\nl: [1, 2\n", "tabindent": "n: 1\nl:\n\t- 1\n"}[kind])
+	case "multipart":
+		good := "--b\r\nContent-Disposition: form-data; name=\"s\"\r\n\r\na\r\n--b--\r\n"
+		switch kind {
+		case "noboundary":
+			ct, body = "multipart/form-data", []byte(good)
+		case "nofinal":
+			ct, body = "multipart/form-data; boundary=b", []byte("--b\r\nContent-Disposition: form-data; name=\"s\"\r\n\r\na")
+		case "nodisp":
+			ct, body = "multipart/form-data; boundary=b", []byte("--b\r\nContent-Type: text/plain\r\n\r\na\r\n--b--\r\n")
+		case "notmultipart":
+			ct, body = "multipart/form-data; boundary=b", []byte("s=a")
+		}
+	}
+	if body == nil {
+		panic("harness: c06 malformed kind " + family + "/" + kind)
+	}
+	return
 }
 
 func renderMT(m any) string {
@@ -71,12 +234,30 @@ func c06Run(c *Case) []any {
 	ct := ""
 	required := tc.Required
 	intS := map[string]any{"type": "integer"}
-	if tc.Part == "select" {
+	if tc.Part == "malformed" {
+		ct, body = c06Malformed(tc.Family, tc.Kind)
+		content[strings.SplitN(ct, ";", 2)[0]] = map[string]any{"schema": absSchemaToOpenAPI(tc.Sch)}
+		required = true
+	} else if tc.Part == "select" {
 		sel := renderMT(tc.BodyKey)
+		bare := ""
+		if bm, ok := tc.Bare.(map[string]any); ok && bm["ty"] != nil {
+			bare = renderMT(tc.Bare)
+		}
 		for i, d := range tc.DeclText {
-			content[d] = map[string]any{"schema": map[string]any{"type": "object", "required": []any{fmt.Sprintf("e%d", i)}}}
+			// entry i accepts exactly the bodies carrying its own marker: the JSON object {"e<i>": 1} or the text e<i>
+			mark := fmt.Sprintf("e%d", i)
+			content[d] = map[string]any{"schema": map[string]any{"anyOf": []any{
+				map[string]any{"type": "object", "required": []any{mark}}, map[string]any{"type": "string", "enum": []any{mark}}}}}
+			if d == bare {
+				content[d] = map[string]any{} // declared without a schema
+			}
 			if d == sel {
-				body = []byte(fmt.Sprintf(`{"e%d":1}`, i))
+				if strings.HasPrefix(tc.HdrText, "text/") {
+					body = []byte(mark)
+				} else {
+					body = []byte(fmt.Sprintf(`{"%s":1}`, mark))
+				}
 			}
 		}
 		if tc.Empty {
@@ -116,38 +297,138 @@ func c06Run(c *Case) []any {
 			}
 			return
 		}
+		// declared key and Content-Type header of the decoder families that take parameters
+		declKey := func(base string) string {
+			if tc.DeclPar != nil && *tc.DeclPar != "" {
+				return base + "; " + *tc.DeclPar
+			}
+			return base
+		}
+		hdrOf := func(base string) string {
+			if tc.HdrPar != nil && *tc.HdrPar != "" {
+				return base + "; " + *tc.HdrPar
+			}
+			return base
+		}
 		switch tc.Family {
 		case "json":
-			content["application/json"] = map[string]any{"schema": schema}
-			ct = "application/json"
+			name := "application/json"
+			if tc.MtName != "" {
+				name = tc.MtName
+			}
+			content[declKey(name)] = map[string]any{"schema": schema}
+			ct = hdrOf(name)
 			body = []byte(taggedToJSONText(tc.V))
+			switch tc.TextForm {
+			case "pretty":
+				var ib bytes.Buffer
+				json.Indent(&ib, body, " ", "\t")
+				body = []byte(" \r\n\t" + ib.String() + "\n \n")
+			case "escaped":
+				var sb strings.Builder
+				c06JSONEscaped(tc.V, &sb)
+				body = []byte(sb.String())
+			}
+		case "yaml":
+			name := "application/yaml"
+			if tc.MtName != "" {
+				name = tc.MtName
+			}
+			content[declKey(name)] = map[string]any{"schema": schema}
+			ct = hdrOf(name)
+			var sb strings.Builder
+			c06YAML(tc.V, "", &sb, true)
+			body = []byte(sb.String())
+			if tc.TextForm == "flow" {
+				body = []byte(taggedToJSONText(tc.V) + "\n") // a JSON text is a YAML flow collection
+			}
 		case "form":
 			mt := map[string]any{"schema": schema}
+			delim := map[string]string{"pipe": "|", "space": " "}[tc.Enc]
 			if tc.Enc == "lNonExplode" {
 				mt["encoding"] = map[string]any{"l": map[string]any{"style": "form", "explode": false}}
+			} else if delim != "" {
+				e := map[string]any{"style": tc.Enc + "Delimited", "explode": false}
+				mt["encoding"] = map[string]any{"l": e, "ls": e}
+			} else if tc.Enc == "deep" {
+				mt["encoding"] = map[string]any{"o": map[string]any{"style": "deepObject", "explode": true}}
 			}
-			content["application/x-www-form-urlencoded"] = mt
-			ct = "application/x-www-form-urlencoded"
+			content[declKey("application/x-www-form-urlencoded")] = mt
+			ct = hdrOf("application/x-www-form-urlencoded")
 			q := url.Values{}
+			var pairs []string // spelling "pct"
 			ks, vs := fields()
 			for i, k := range ks {
+				if fv := asSlice(v["v"])[i].(map[string]any); fv["t"] == "obj" {
+					// an object-valued property in deepObject style: k[sub]=text
+					subv := asSlice(fv["v"])
+					for j, sub := range asSlice(fv["k"]) {
+						q.Add(k+"["+sub.(string)+"]", primText(subv[j]))
+					}
+					continue
+				}
 				if tc.Enc == "lNonExplode" && k == "l" {
 					q.Set(k, strings.Join(vs[i], ","))
+				} else if delim != "" && (k == "l" || k == "ls") {
+					q.Set(k, strings.Join(vs[i], delim))
 				} else {
 					for _, x := range vs[i] {
 						q.Add(k, x)
+						pairs = append(pairs, k+"="+c06PctEscape(x))
 					}
 				}
 			}
 			body = []byte(q.Encode())
+			if tc.Spell == "pct" {
+				body = []byte(strings.Join(pairs, "&"))
+			}
 		case "multipart":
-			content["multipart/form-data"] = map[string]any{"schema": schema}
+			mmt := map[string]any{"schema": schema}
+			if tc.EncCT {
+				pct := map[string]string{"json": "application/json", "file": "application/octet-stream"}[tc.PartCT]
+				encs := map[string]any{}
+				for _, k := range []string{"l", "ls", "n", "o", "ro", "s"} {
+					encs[k] = map[string]any{"contentType": pct}
+				}
+				mmt["encoding"] = encs
+			}
+			content["multipart/form-data"] = mmt
 			var buf bytes.Buffer
 			w := multipart.NewWriter(&buf)
+			switch tc.Boundary {
+			case "quoted":
+				w.SetBoundary("xx:yy") // has to be quoted in the Content-Type header
+			case "short":
+				w.SetBoundary("b")
+			}
 			ks, vs := fields()
+			if tc.PartCT == "json" {
+				// every part says application/json and carries the JSON text of the property (of the item, for an array)
+				vvs := asSlice(v["v"])
+				for i, k := range ks {
+					items := []any{vvs[i]}
+					if fv := vvs[i].(map[string]any); fv["t"] == "arr" {
+						items = asSlice(fv["a"])
+					}
+					for _, it := range items {
+						h := textproto.MIMEHeader{}
+						h.Set("Content-Disposition", fmt.Sprintf(`form-data; name="%s"`, k))
+						h.Set("Content-Type", "application/json")
+						pw, _ := w.CreatePart(h)
+						pw.Write([]byte(taggedToJSONText(it)))
+					}
+				}
+				ks = nil
+			}
 			for i, k := range ks {
-				for _, x := range vs[i] {
-					if tc.PartCT == "text" {
+				for j, x := range vs[i] {
+					if tc.PartCT == "file" {
+						h := textproto.MIMEHeader{}
+						h.Set("Content-Disposition", fmt.Sprintf(`form-data; name="%s"; filename="%s%d.bin"`, k, k, j))
+						h.Set("Content-Type", "application/octet-stream")
+						pw, _ := w.CreatePart(h)
+						pw.Write([]byte(x))
+					} else if tc.PartCT == "text" {
 						h := textproto.MIMEHeader{}
 						h.Set("Content-Disposition", fmt.Sprintf(`form-data; name="%s"`, k))
 						h.Set("Content-Type", "text/plain")
@@ -166,8 +447,28 @@ func c06Run(c *Case) []any {
 			if tc.Sch != nil {
 				ts = absSchemaToOpenAPI(tc.Sch) // the abstract text schema TLC judged the body against
 			}
-			content["text/plain"] = map[string]any{"schema": ts}
-			ct = "text/plain"
+			content[declKey("text/plain")] = map[string]any{"schema": ts}
+			ct = hdrOf("text/plain")
+			body = []byte(csToString(v["cs"]))
+		case "zip":
+			// the library's opt-in decoder for archives, registered by the caller for application/zip; the body is an archive of one file
+			openapi3filter.RegisterBodyDecoder("application/zip", openapi3filter.ZipFileBodyDecoder)
+			defer openapi3filter.UnregisterBodyDecoder("application/zip")
+			content["application/zip"] = map[string]any{"schema": absSchemaToOpenAPI(tc.Sch)}
+			ct = "application/zip"
+			var zb bytes.Buffer
+			zw := zip.NewWriter(&zb)
+			fw, _ := zw.Create("a.txt")
+			fw.Write([]byte(csToString(v["cs"])))
+			zw.Close()
+			body = zb.Bytes()
+		case "csv":
+			content["text/csv"] = map[string]any{"schema": absSchemaToOpenAPI(tc.Sch)}
+			ct = "text/csv"
+			body = []byte(csToString(v["cs"]))
+		case "octet":
+			content[declKey("application/octet-stream")] = map[string]any{"schema": absSchemaToOpenAPI(tc.Sch)}
+			ct = hdrOf("application/octet-stream")
 			body = []byte(csToString(v["cs"]))
 		}
 		required = tc.BodyRequired == nil || *tc.BodyRequired
@@ -195,6 +496,15 @@ func c06Run(c *Case) []any {
 		var r *http.Request
 		if body == nil {
 			r = httptest.NewRequest("POST", "/t", nil)
+			switch tc.EmptyForm {
+			case "nil":
+				r.Body = nil
+			case "reader":
+				r.Body = io.NopCloser(bytes.NewReader(nil))
+			case "unsized":
+				r.Body = io.NopCloser(io.MultiReader(bytes.NewReader(nil)))
+				r.ContentLength = -1
+			}
 		} else {
 			r = httptest.NewRequest("POST", "/t", bytes.NewReader(body))
 		}
@@ -218,7 +528,11 @@ func c06Run(c *Case) []any {
 		Options: &openapi3filter.Options{ExcludeReadOnlyValidations: tc.ExcludeRO, SkipSettingDefaults: !tc.SetDefaults}}
 	var verr error
 	if p, _ := guard(func() {
-		verr = openapi3filter.ValidateRequestBody(context.Background(), input, route.Operation.RequestBody.Value)
+		if tc.Entry == "request" {
+			verr = openapi3filter.ValidateRequest(context.Background(), input)
+		} else {
+			verr = openapi3filter.ValidateRequestBody(context.Background(), input, route.Operation.RequestBody.Value)
+		}
 	}); p {
 		line["verdict"] = "panic"
 	} else {
